@@ -36,7 +36,12 @@ THEOREMS = ['C20.scope_injective', 'C20.scope_stable', 'C20.chain_claims', 'C20.
             'C20.kmodule_modules_is_closure', 'C20.closure_is_transitive', 'C20.own_then_closure_search_sort', 'C20.own_then_closure_search_symbol',
             'C20.own_then_closure_search_axiom', 'C20.all_modules_under_any_set_order', 'C20.get_module_under_any_set_order',
             'C20.ls_get_sort_under_any_set_order', 'C20.ls_get_symbol_under_any_set_order', 'C20.sentence_on_k_module_store',
-            'C20.module_sentences_text_is_spec', 'C20.invariant_across_modules', 'C20.Example2.tie']
+            'C20.module_sentences_text_is_spec', 'C20.invariant_across_modules', 'C20.Example2.tie',
+            # the GENERAL several-module tie (Props/C20f.lean, KDefTieM8-10.lean): for every definition of InFragmentM, every valid set order and
+            # fuel > number of modules, from_kore_definition raises iff sigOfDefinitionM refuses, otherwise signature / get_axiom (the rules the last
+            # module reaches) / cached scopes (all rules) / lookups are the specification's; get_proof_hints and the pipeline on top
+            'C20.kore_definition_text_is_the_model_multi', 'C20.kore_definition_representsM', 'C20.proof_hints_text_is_the_model_multi',
+            'C20.k_pipeline_text_is_the_model_multi', 'C20.ExampleMulti.diamond_tie', 'C20.ExampleMulti.island_tie', 'C20.ExampleMulti.diamond_hints']
 
 
 def unhex(h):
@@ -45,7 +50,7 @@ def unhex(h):
 
 def run(rep):
     rng = random.Random(rep.seed * 1000003 + 20)
-    ok, detail = core.proof_gate(rep, 'Pi2.Props.C20e', THEOREMS)
+    ok, detail = core.proof_gate(rep, 'Pi2.Props.C20f', THEOREMS)
     core.rust_build()
     quick = rep.tier == 'quick'
     findings = []
